@@ -235,6 +235,7 @@ fn via_name(v: &Via) -> &'static str {
         Via::Thread => "thread",
         Via::Props { .. } => "props",
         Via::TraceOnly { .. } => "trace-only",
+        Via::Plain { .. } => "plain-frame",
         Via::Header { spec, .. } => header_kind(spec),
         Via::Remote => "remote",
     }
@@ -680,7 +681,7 @@ impl<'a> Oracle<'a> {
                                 }
                             }
                         }
-                        Via::Props { .. } | Via::TraceOnly { .. } => unreachable!("not generated for C18"),
+                        Via::Props { .. } | Via::TraceOnly { .. } | Via::Plain { .. } => unreachable!("not generated for C18"),
                     };
                     self.walk(child, &child_outer, vn);
                     self.expect_tp(
